@@ -191,6 +191,19 @@ CHECKS = {
              "(walrus statement, match capture) are listed.",
         ref="DESIGN.md 4 C02",
     ),
+    "C03": dict(
+        text="(a) Termination of the implicit-subprocess recovery loop: the real _parse_ctx_free/_try_parse with the real lexer, "
+             "subproc_toks, find_next_break and logical-line helpers runs against an adversarial parser whose first two answers (success, "
+             "error without location, error at a symbolic line/column) are symbolic integers decided by z3 and which afterwards always "
+             "reports a fresh location, so only the retry counter can stop the loop: it must return or raise SyntaxError within the cap, "
+             "never another exception. (b) get_logical_line / strip_continuation_comments / _ends_with_line_continuation over symbolic "
+             "short lines of quotes, backslashes, '#', ';'. (c) bare == explicit: a generated family of command segments alone or chained "
+             "by && || and or, in six statement positions, must run exactly the commands of the hand-wrapped ![...] program.",
+        note="Partial claim: (a) is for six seed inputs and two symbolic answers; (c) is a finite generated family, not the whole "
+             "subprocess grammar (that needs the lexer and LALR parser inside the solver - same wall as C01). Three known findings listed. "
+             "A few (a) partitions do not exhaust within the quick budget and are reported inconclusive.",
+        ref="DESIGN.md 4 C03",
+    ),
 }
 
 NA = {
